@@ -105,7 +105,22 @@ class Runner:
         late = gated == "late"   # the cleanup delay outlives the reconnect: it is released only when the server
         proxy.gate = gate        # turns out to be waiting for it (no reply within 40 ms), or at the next reconnect
         acc.count("sequences.gated-late" if late else "sequences.gated" if gated else "sequences.ungated")
-        sid = "%064x" % (self.ctx.rng.getrandbits(255) + 1)
+        rng = self.ctx.rng
+        sid = "%064x" % (rng.getrandbits(255) + 1)
+        shape = rng.choice(["hex64", "hex64", "hex64", "short", "long", "mixed-case", "dashed"])
+        if shape == "short":
+            sid = "svc-%x" % rng.getrandbits(40)
+        elif shape == "long":
+            sid = sid + "%x" % rng.getrandbits(rng.choice([4, 64, 200]))
+        elif shape == "mixed-case":
+            sid = sid[:20].upper() + sid[20:]
+        elif shape == "dashed":
+            sid = sid[:8] + "-" + sid[8:40] + "_" + sid[40:]
+        acc.add("sid_shapes", shape)
+        # messages carrying a FOREIGN sid: unrelated ones and near misses of the connection's own sid
+        near = [sid[:8] + ("0" if sid[8:9] != "0" else "1") * max(1, len(sid) - 8), sid[:-1] + ("0" if sid[-1] != "0" else "1"),
+                sid + "0", sid[1:] or "x", sid.swapcase() if sid.swapcase() != sid else "f" * 64, "f" * 64, ""]
+        foreign = [x for x in near if x != sid]
         model = Model()
         trace = []
         case = {"sequence": list(seq), "trace": trace}
@@ -150,8 +165,11 @@ class Runner:
                 elif sym == "s":
                     await conn.send("token", fx.token, token_digest=b"digest")
                 elif sym == "fo":
-                    await conn.send("config", pickle.dumps(fx.c2), sid="f" * 64)
-                    await conn.send("token", fx.token, sid="e" * 64, token_digest=b"x")
+                    f1, f2, f3 = rng.choice(foreign), rng.choice(foreign), rng.choice(foreign)
+                    await conn.send("config", pickle.dumps(fx.c2), sid=f1)
+                    await conn.send("upload_edb", fx.edb["e2"], sid=f2)
+                    await conn.send("token", fx.token, sid=f3, token_digest=b"x")
+                    acc.count("foreign_sid_messages", 3)
                 elif sym == "un":
                     await conn.send("delete", b"")
                 expected = model.step(sym)
@@ -375,6 +393,8 @@ def finish(m, tier, seed):
         "distinct_traces": len(m["sets"].get("distinct_traces", [])),
         "model_state_x_message_pairs_seen": len(pairs & need),
         "disk_checks": c.get("disk_checks", 0),
+        "sid_shapes": sorted(m["sets"].get("sid_shapes", [])),
+        "foreign_sid_messages": c.get("foreign_sid_messages", 0),
         "sequences_with_reconnect_inside_cleanup_delay": c.get("sequences.gated", 0),
         "sequences_with_reconnect_after_cleanup": c.get("sequences.ungated", 0),
         "sequences_with_cleanup_delay_outliving_the_reconnect": c.get("sequences.gated-late", 0),
